@@ -62,6 +62,8 @@ func runC16(c *Ctx) {
 	runC16ClassPriority(c)
 	runC16StatusSync(c)
 	borrow(c, "O8", "C05", "O13", "", "a per-job table of the topology plugin that survives into the next job confines that job to the previous job's nodes: a higher-priority workload stays pending next to free nodes while an identical lower-priority one, attempted after a different predecessor, is placed")
+	borrow(c, "O15", "C04", "O10", "RemovePod", "a pod of a rolled-back attempt that stays in the node's affinity bookkeeping lets a later, lower-priority workload be admitted next to a pod that does not exist while the identical older one was refused")
+	borrow(c, "O14", "C12", "O12", "is scanned on every path", "a terminally failed BindRequest that is never cleaned up makes the older workload lose its place: every cycle it is popped first, its new BindRequest collides with the stale one, the allocation is undone and the younger identical workload gets the resources")
 	borrow(c, "O6", "C08", "O5", "AllocatedNotPreemptible", "the non-preemptible quota gate must be monotone within a cycle: a deallocation that subtracts what the allocation never added lowers the queue's non-preemptible usage, so an earlier (higher-priority) workload is refused and an identical later one admitted")
 	p, fx := c.P, c.Fx
 	e := newAbsExec(p)
